@@ -473,6 +473,10 @@ class Engine:
         return []
 
     # ------------------------------------------------------------------ path walking
+    def _private_callee(self, key):
+        b = self.f.body(key) if key else None
+        return b is not None and b.get("kind") in ("Fn", "AssocFn") and not (b.get("pub") and b.get("reachable"))
+
     def _foreign_storage(self, op):
         from . import storage
 
@@ -495,9 +499,12 @@ class Engine:
         results = []
         budget = [0]
         key = body["key"]
+        ret_is_bool = f.ts(body["locals"][0]["ty"]) == "bool"
 
         def finish(exit, st):
             tag = st["tags"].get(0) if exit == "ret" else None
+            if exit == "ret" and tag is None and 0 in st["consts"] and ret_is_bool:
+                tag = "True" if st["consts"][0] else "False"  # a verdict (`fn release_ref(&self) -> bool`): callers branch on it
             results.append(PathResult(exit, tag, st["vec"], tuple(sorted(st["pcalls"])), frozenset(st["notes"]), st["events"], st["blocks"], st["origin"] if exit != "ret" else None))
             budget[0] += 1
             if budget[0] > self.MAX_PATHS:
@@ -749,6 +756,10 @@ class Engine:
                 v = vadd(v, vec(free_raw=-n, free_s1=n))
             if kind == "DEC":
                 s2["dec_direct"] = True
+            elif kind == "CALL" and vget(v, "dec") > 0 and not vget(v, "free_s1") and not vget(v, "free_raw") and not vget(v, "drops") and isinstance(detail, dict) and self._private_callee(detail.get("callee")):
+                # the decrement lives in a private helper that only reports the verdict (`fn release_ref(&self) -> bool`):
+                # a free later on this path is still "the free after the decrement" (shape S1)
+                s2["dec_direct"] = True
             s2["pcalls"] = s2["pcalls"] + list(e.pcalls)
             s2["notes"] |= e.notes
             d = detail
@@ -768,7 +779,9 @@ class Engine:
             if dest_local is not None:
                 s2["consts"].pop(dest_local, None)
                 s2["tags"].pop(dest_local, None)
-                if e.tag is not None and e.exit == "ret":
+                if e.tag in ("True", "False") and e.exit == "ret":
+                    s2["consts"][dest_local] = 1 if e.tag == "True" else 0
+                elif e.tag is not None and e.exit == "ret":
                     s2["tags"][dest_local] = e.tag
             if e.exit == "ret":
                 if target is None:
